@@ -216,9 +216,21 @@ async def run_behaviour(beh, out):
 async def pingpong(d, where):
     results = []
 
+    class Falsy:
+        """a callable that is a FALSY object (a handler collection with __call__, say)"""
+
+        def __init__(self, fn):
+            self.fn = fn
+
+        def __bool__(self):
+            return False
+
+        def __call__(self, *a):
+            return self.fn(*a)
+
     async def t_level(k):
         if k > 0:
-            return await trio.to_thread.run_sync(s_level, k)
+            return await trio.to_thread.run_sync(Falsy(s_level) if k % 2 else s_level, k)
         task_root = ROOT["task"]
         if where == "inside":
             results.append(stackscope.extract(task_root))
